@@ -2,7 +2,7 @@
     observed) and the property predicate [Pb] (reference vs observed) on the trace itself. *)
 From Coq Require Import ZArith List Bool.
 Import ListNotations.
-Open Scope Z_scope.
+Local Open Scope Z_scope.
 Require Import Nib.C04.Model Nib.C04.Spec.
 
 Record case := {
